@@ -204,7 +204,7 @@ def run(ck, facts):
     okw = any(n.get("k") == "if" and C.strip(n["c"]).get("k") == "mcall" and C.strip(n["c"]).get("m") == "is_write" and any(x.get("k") == "mcall" and x.get("m") == "push" and "&write" in C.str_lits(x["a"][0]) for x in C.walk(n["t"])) for n in C.walk(body))
     ck.expect(okw, "R3", "cpp::gen_method_info/write-last", "", "`&write` is not appended under method.output.is_write()", C.loc(g))
     fl_t = fl
-    ck.expect(re.search(r"for param in m\.cpp_to_c_params", fl_t) is not None and "reverse" not in fl_t and "|sort" not in fl_t, "R3", "method_impl.h/param-order", "", "the template does not print cpp_to_c_params in order", "tool/templates/cpp/method_impl.h.jinja")
+    ck.expect(re.search(r"for \w+ in \w+\.cpp_to_c_params", fl_t) is not None and "reverse" not in fl_t and "|sort" not in fl_t, "R3", "method_impl.h/param-order", "", "the template does not print cpp_to_c_params in order", "tool/templates/cpp/method_impl.h.jinja")
     # ---------------- R4
     n4 = 0
     for fname in ("gen_c_to_cpp_for_return_type", "gen_c_to_cpp_for_type"):
